@@ -56,6 +56,29 @@ def expand(scratch):
                     continue
                 open(dst, "w").write(r["out"])
             out[crate] = dst
+        # probe crate: thin generic wrappers around konst's user-facing macros (expanded by rustc as defined in the copy)
+        psrc = os.path.join(VERIF, "probes")
+        if os.path.isdir(psrc):
+            import shutil
+            pdst = os.path.join(scratch.path, "probes")
+            dst = os.path.join(scratch.path, "probes.exp.rs")
+            if not os.path.exists(dst):
+                if os.path.exists(pdst):
+                    shutil.rmtree(pdst)
+                shutil.copytree(psrc, pdst, ignore=shutil.ignore_patterns("target", "Cargo.lock"))
+                lock = os.path.join(scratch.repo, "Cargo.lock")
+                if os.path.exists(lock):
+                    shutil.copy(lock, os.path.join(pdst, "Cargo.lock"))
+                r = run(["cargo", "+nightly", "rustc", "--lib", "--offline", "--", "-Zunpretty=expanded"], cwd=pdst, timeout=900,
+                        env={"CARGO_TARGET_DIR": os.path.join(scratch.path, "exp-target")})
+                if r["rc"] != 0 or not r["out"].strip():
+                    # a wrapper that does not compile is reported by the unit that needs it (anchor lost), not here
+                    errs_probe = r["err"][-3000:]
+                    open(os.path.join(scratch.path, "probes.err"), "w").write(errs_probe)
+                else:
+                    open(dst, "w").write(r["out"])
+            if os.path.exists(dst):
+                out["probes"] = dst
         return out, errs
 
 
